@@ -23,6 +23,8 @@ from . import api
 ROOT = os.path.dirname(os.path.dirname(os.path.abspath(__file__)))
 EXIT_OK, EXIT_VIOLATION, EXIT_INCONCLUSIVE, EXIT_HARNESS_ERROR = 0, 1, 2, 3
 
+GRACE_AFTER_VIOLATION = 90
+WALL_LIMIT = {"quick": 1500, "thorough": 3 * 3600}
 CHUNK_PATHS = 150
 CHUNK_SECONDS = 4.0
 
@@ -213,7 +215,32 @@ def run_property(prop, tier, seed, only=None, workers=None, verbose=False):
     with cf.ProcessPoolExecutor(max_workers=workers, mp_context=ctx, initializer=_worker_init) as ex:
         running = set()
         dead = set()
+        decided_at = None
+        wall_limit = WALL_LIMIT[tier]
         while pending or running:
+            if time.time() - t0 > wall_limit:
+                # never report a timeout as success: the unfinished work makes the run inconclusive
+                agg["inconclusive"].append(f"wall-clock limit of {wall_limit} s for the {tier} tier exceeded with {len(pending) + len(running)} task(s) unfinished")
+                agg["early_stop"] = agg.get("early_stop") or "time limit"
+                for f in running:
+                    f.cancel()
+                for pr_ in list(getattr(ex, "_processes", {}).values()):
+                    try:
+                        pr_.kill()
+                    except Exception:
+                        pass
+                break
+            if decided_at is not None and time.time() > decided_at + GRACE_AFTER_VIOLATION:
+                # the verdict is decided (a natively confirmed violation exists): do not wait for jobs that a defect may have made very slow
+                agg["early_stop"] = f"stopped {GRACE_AFTER_VIOLATION} s after the first confirmed violation; {len(pending) + len(running)} task(s) unfinished"
+                for f in running:
+                    f.cancel()
+                for pr_ in list(getattr(ex, "_processes", {}).values()):
+                    try:
+                        pr_.kill()
+                    except Exception:
+                        pass
+                break
             while pending and len(running) < workers * 2:
                 t_ = pending.popleft()
                 if (t_[1], t_[2]) in dead:
@@ -221,9 +248,13 @@ def run_property(prop, tier, seed, only=None, workers=None, verbose=False):
                 running.add(ex.submit(_worker, t_))
             if not running:
                 continue
-            done, running = cf.wait(running, return_when=cf.FIRST_COMPLETED)
+            done, running = cf.wait(running, timeout=5, return_when=cf.FIRST_COMPLETED)
             for f in done:
-                r = f.result()
+                try:
+                    r = f.result()
+                except Exception as e:  # a worker that was killed
+                    agg["errors"].append(f"worker failed: {e!r}"[:300])
+                    continue
                 hname, pidx = r["task"]
                 if "error" in r:
                     agg["errors"].append(f"{hname}[{pidx}]: {r['error']}")
@@ -248,6 +279,8 @@ def run_property(prop, tier, seed, only=None, workers=None, verbose=False):
                 for v in r["violations"]:
                     v["harness"], v["pidx"] = hname, pidx
                     agg["violations"].append(v)
+                    if v.get("confirmed") and decided_at is None:
+                        decided_at = time.time()
                 agg["inconclusive"].extend(f"{hname}[{pidx}]: {m}" for m in r["inconclusive"])
                 ph = agg["per_harness"][hname]
                 ph["paths"] += r["stats"]["paths"]
@@ -326,6 +359,9 @@ def run_property(prop, tier, seed, only=None, workers=None, verbose=False):
     if agg["mismatches"]:
         for m in agg["mismatches"][:5]:
             harness_errors.append(f"symbolic/native outcome mismatch in {m['harness']} {m['params']}: {m['why']} inputs={json.dumps(_jsonable(m['inputs']))[:400]}")
+    if agg.get("early_stop"):
+        vac = [agg["early_stop"]] if agg["early_stop"] != "time limit" else []  # unfinished jobs cannot have reached their labels: not a vacuity finding
+        harness_errors = [e for e in harness_errors if not e.startswith("worker failed")]
     inconclusive = sorted(set(agg["inconclusive"])) + vac
     if agg["stats"].get("unknown"):
         inconclusive.append(f"{agg['stats']['unknown']} solver queries returned unknown")
